@@ -115,13 +115,23 @@ def run_case(case, sc):
             G.walk(e, lambda n: uses.append(1) if n.get("k") == "var" and n.get("bid") in param_bids else None)
             comp = isinstance(e["ty"], list) and e["ty"][0] in ("Tuple", "List", "Option", "Result")
             return (2 if (uses and comp) else 1 if uses else 0)
+        def self_shadow(c):
+            hit = []
+
+            def f(n):
+                if n.get("k") == "let":
+                    G.walk(n["e"], lambda m: hit.append(1) if m.get("k") == "var" and m.get("name") == n["name"] else None)
+            G.walk(c[0], f)
+            return 1 if hit else 0
         bare = case["seed"] % 2 == 1
         rng.shuffle(cands)
         if bare:
             cands.sort(key=score, reverse=True)
             cands = cands[:3] + rng.sample(cands[3:], 2)
         else:
-            cands = cands[:5]
+            # favour selections that contain `let x = <expr reading the outer x>`
+            cands.sort(key=self_shadow, reverse=True)
+            cands = cands[:2] + rng.sample(cands[2:], 3)
     keys = set()
     for e, st, en in cands:
         for tool in ("variable", "function"):
